@@ -46,8 +46,33 @@ Theorem C05_concurrent_copies_any_number :
     (length (downs (snd (interleaveN apps sched fuel st
                            (map (fun c => join_prog E D cfg f (fst (fst c)) (snd (fst c)) (snd c)) copies) []))) <= 1)%nat.
 Proof. exact concurrent_join_copies_any_number. Qed.
+(* "The stored session always matches the join-accept sent", while uplinks of the device are handled at the same time: one
+   join handler and ANY number of uplink handlers (ANY frames), interleaved operation by operation in EVERY order and cut
+   anywhere, from a state whose buffer entry is not a join-accept entry. Every join-accept that leaves - sent by the join's own
+   handler, or collected from the device's buffer entry by an uplink handler - is the encoding under the device's AppKey of the
+   record the join built (its AppNonce, the NetID, the address), and when one has left the row holds the session keys derived
+   from that AppNonce and the request's DevNonce, and that address. (A conformant device derives the same from those octets:
+   C04_session_agrees.) No hypothesis on the cipher. *)
+From Lospan Require Import Gen.Consts Model.Steps Proof.SessionDataProof Proof.SessionAcceptProof.
+Theorem C05_accept_conveys_the_stored_session_in_every_schedule :
+  forall (E D : list N -> list N -> list N) apps cfg jf jrx appnonce newaddr (ups : list (frame * rxpacket * nat * N)) sched fuel st r,
+    ds_row st = Some r -> fb_noja st ->
+    let res := interleaveN apps sched fuel st
+        (join_prog E D cfg jf jrx appnonce newaddr :: map (fun u => uplink_prog E D (fst (fst (fst u))) (snd (fst (fst u))) (snd (fst u)) (snd u)) ups) [] in
+    let addr := if (d_addr r =? 0)%N then newaddr else d_addr r in
+    Forall (fun raw => encode_join_accept E D (d_appkey r) JoinAccept c_MaxSupportedVersion
+                         {| ja_appnonce := appnonce; ja_netid := N.land (cfg_netid cfg) 4294967295; ja_devaddr := devaddr_of_u32 addr;
+                            ja_rx1droffset := 0; ja_rx2dr := 5; ja_rxdelay := 1 |} = Ok raw) (ja_raws (snd res)) /\
+    (ja_raws (snd res) <> [] ->
+     exists x, ds_row (fst res) = Some x /\
+       d_nwkskey x = nwkskey_from_nonces E (d_appkey r) appnonce (cfg_netid cfg) (jr_devnonce (jr jf)) /\
+       d_appskey x = appskey_from_nonces E (d_appkey r) appnonce (cfg_netid cfg) (jr_devnonce (jr jf)) /\
+       d_addr x = addr /\ d_appkey x = d_appkey r).
+Proof. exact accept_conveys_the_stored_session. Qed.
+
 
 Print Assumptions C05_once.
 Print Assumptions C05_agree.
 Print Assumptions C05_concurrent_copies_one_accept.
 Print Assumptions C05_concurrent_copies_any_number.
+Print Assumptions C05_accept_conveys_the_stored_session_in_every_schedule.
